@@ -105,6 +105,12 @@ def exec_step(world: W.World, step: dict, ctx: seam.Ctx, fault=None, fp=False, e
         return out
     op = OPS[name]
     p = step.get("p") or {}
+    if name not in NONFINITE_SAFE and any(_nonfinite(x) for x in args):
+        # numpy's LAPACK (OpenBLAS gesdd) does not return for matrices with nan/inf entries: null_space, orth,
+        # basis_matrix and everything built on them would hang the process. Operands with non-finite coordinates
+        # are therefore only handed to operations that stay away from the decompositions.
+        out.status = "skipped"
+        return out
     if fault is not None:
         ctx.fault_at = fault["at"]
         ctx.fault_exc = (seam.SimInterrupt if fault["kind"] == "async_interrupt" else seam.SimMemoryError)(
@@ -398,6 +404,22 @@ class Gen:
                 self.hot.append(s)
                 if len(self.hot) > self.cfg["hot"] + 2:
                     self.hot.pop(0)
+
+
+NONFINITE_SAFE = {"eq", "eq_s", "eq_list", "ufunc_eq", "repr", "is_zero", "u_is_multiple", "u_is_multiple_all",
+                  "props", "copy", "copy_copy", "neg", "pt_neg", "mul_ts", "rmul_ts", "div_ts", "pt_mul_s", "pt_rmul_s",
+                  "pt_div_s", "asarray", "asarray_c", "getitem", "pt_isinf", "pt_isreal", "normalized_array",
+                  "u_is_scalar", "add_tt", "sub_tt", "radd_s", "rsub_s", "ufunc_add", "ufunc_neg", "ufunc_rmul",
+                  "size_len", "iter", "aug_copy", "T", "transpose", "reconstruct", "reconstruct_nocopy"}
+
+
+def _nonfinite(x, depth=0) -> bool:
+    a = getattr(x, "array", None)
+    if isinstance(a, np.ndarray):
+        return a.dtype.kind in "fc" and a.size <= 1_000_000 and not bool(np.all(np.isfinite(a)))
+    if isinstance(x, (list, tuple)) and depth < 2:
+        return any(_nonfinite(y, depth + 1) for y in x)
+    return False
 
 
 def _advanced(j) -> bool:
